@@ -20,6 +20,10 @@
 (*             intervals: the extension of an empty bi-interval is the empty   *)
 (*             bi-interval of the extended string -- the property fixes its    *)
 (*             size (0), not its bounds.                                       *)
+(*   serde     {}      -> ok            owned index round-tripped through serde;*)
+(*             the events after it are judged like the ones before            *)
+(*   bsearch   {p, it} -> kind, lower, upper, len, pos   backward_search of    *)
+(*             the FMD index (iterator kind `it`), judged as in C05            *)
 (* Result order is free; only sets are compared.                              *)
 EXTENDS SuffixIndex, Json, IOUtils
 
@@ -63,6 +67,12 @@ Explains(cfg, e) ==
               LET p == c.a.p  l == c.a.l IN
               /\ Len(p) >= 1 /\ DnaWord(p) /\ l >= 1 /\ (cfg.tab # 0 => UpperWord(p))
               /\ AllSmemsOKin(MemSet(p, t), p, l, r.ms, t)
+         [] c.op = "serde" -> TRUE     \* the (owned) index went through Serialize/Deserialize
+         [] c.op = "bsearch" ->        \* FMIndexable::backward_search of the FMD index (C05 semantics)
+              LET p == c.a.p IN
+              /\ Len(p) >= 1 /\ DnaWord(p)
+              /\ r.kind \in {Absent, Partial, Complete}
+              /\ BackwardSearchOK(p, t, r)
          [] c.op = "ext_path" ->
               /\ cfg.tab # 0 => (c.a.start \in {-1, 65, 67, 71, 84, 78} /\ \A j \in 1..Len(c.a.ops) : UpperWord(<<c.a.ops[j][2]>>))
               /\ ExtPathOK(c.a, r.ivs, t)
